@@ -132,13 +132,16 @@ def build_case(rng, opname, cause):
             if opname == "sell":
                 op["amount"] = (held + step * 3).quantize(step)   # negative floor keeps every bid: reject through the holding
         elif cause == "cash":
-            spec["cash"] = str(Decimal(str(levels[0][0])) * Decimal("0.9"))
+            spec["cash"] = str(Decimal(str(levels[0][0])) * Decimal(op["amount"]) * Decimal("0.9"))
             spec["prefix"] = []
+            sclass = "fresh"
         elif cause == "not-held":
             spec["positions"] = []
             spec["prefix"] = []
+            sclass = "fresh"
         elif cause == "exceeds-holding":
             spec["prefix"] = []
+            sclass = "fresh"
             bump = rng.choice((step, step * 10))
             need = held + bump
             # make sure the bids are deep enough so that only the holding check can fail
@@ -198,7 +201,7 @@ def run_case(ctx: Ctx, spec, opname, cause, sclass, reqs):
 
 def run(ctx: Ctx):
     reqs = []
-    per = ctx.scale(5, 200)
+    per = ctx.scale(12, 300)
     for opname, causes in CAUSES.items():
         for cause in causes:
             for _ in range(per):
